@@ -1,8 +1,8 @@
 """C09: multi-threaded decoding is memory-safe and gives the single-thread result (DESIGN.md 4/C09).
 
 The decoder runs under the controlled scheduler (hook H1 makes its busy-wait loops and progress-flag stores scheduling
-points); every schedule with <= d delays is executed for threads in {2,3,4}; canonical and mirrored schedules for 1..16
-threads additionally run in the ASan+UBSan build."""
+points); every schedule with <= d delays is executed for threads in {2,3,4}; every schedule with one stall point (the thread running at decision point p is arbitrarily slow from p
+on) is executed as well; canonical and mirrored schedules for 1..16 threads additionally run in the ASan+UBSan build."""
 import json
 import os
 import time
@@ -61,7 +61,7 @@ def run(tier):
     names = list(STREAMS) if tier == "thorough" else ["192x128-key+2inter", "256x128-2tiles", "256x128-2tilerows", "144x112-hl3-9frames", "192x128-restoration-on"]
     streams_ = make_streams(wd, names)
     per, samples = [], []
-    tot_exec = tot_trans = traces = 0
+    tot_exec = tot_trans = traces = stall_total = 0
     exhaustive = True
     # reference: single-threaded decode (free of scheduling choices)
     refs = {}
@@ -92,7 +92,9 @@ def run(tier):
 
         def on(res, name=name, t=t):
             devs = schedlib.delays_str(res["devs"])
-            rep = {"stream": name, "args": STREAMS[name], "threads": t, "delays": devs}
+            rep = {"stream": name, "args": STREAMS[name], "threads": t, "delays": devs, "stalls": res.get("stalls") or []}
+            if res.get("stalls"):
+                devs = "stall at %s" % res["stalls"]
             out = res.get("out") or {}
             if res["rc"] == 6:
                 return
@@ -120,6 +122,17 @@ def run(tier):
         per.append({"stream": name, "threads": t, "delay_bound_requested": bound, "delay_bound_completed": E.completed_bound, "schedules": E.executions,
                     "decisions": E.transitions, "distinct_decision_traces": len(E.trace_hashes), "distinct_outcomes": len(outcomes), "capped": E.capped})
         samples.extend([dict(s, stream=name, threads=t) for s in E.samples[:1]])
+        # one stall point: every decision point of the canonical schedule, the running thread becomes arbitrarily slow from there
+        if not lr_on(name):
+            S = schedlib.stall_sweep(exe, [streams_[name], "threads=%d" % t], on, time.time() + max(10, share), timeout=120)
+            tot_exec += S["executions"]
+            tot_trans += S["transitions"]
+            traces += len(S["trace_hashes"])
+            stall_total += S["executions"] - 1
+            per[-1].update({"stall_points": S["points"], "stall_schedules": S["executions"] - 1, "stall_sweep_complete": S["complete"],
+                            "stall_distinct_traces": len(S["trace_hashes"])})
+            if not S["complete"]:
+                exhaustive = False
     # memory safety: canonical and mirrored schedule for 1..16 threads in the sanitizer build
     asan_runs = 0
     env = {"ASAN_OPTIONS": "detect_leaks=0:halt_on_error=0:exitcode=0", "UBSAN_OPTIONS": "print_stacktrace=1:halt_on_error=0"}
@@ -139,9 +152,10 @@ def run(tier):
                 elif r["rc"] == 0 and obs(r) != refs[name]:
                     ck.violation(differs_key(name, t), "policy %d yields %s, single-thread decode yields %s" % (pol, obs(r), refs[name]), rep)
     cov = {"states": traces, "transitions": tot_trans, "traces_validated_against_impl": tot_exec + asan_runs, "samples": samples or [{"delays": ""}],
-           "exhaustive": exhaustive, "per_session": per, "asan_runs": asan_runs, "streams": {n: enc.describe(STREAMS[n]) for n in streams_},
+           "exhaustive": exhaustive, "per_session": per, "asan_runs": asan_runs, "stall_schedules": stall_total, "streams": {n: enc.describe(STREAMS[n]) for n in streams_},
            "explanation": "stateless exploration of the real decoder under the serialising scheduler: every schedule with total delay <= bound for "
-                          "threads 2,3,4 on each stream; 'states' = distinct decision traces; plus canonical/mirrored schedules for up to 16 threads under ASan+UBSan"}
+                          "threads 2,3,4 on each stream, and every schedule with one stall point (VS_STALL=p for every decision point p of the canonical "
+                          "schedule: the thread running at p only runs again when all others are blocked or spin without progress); 'states' = distinct decision traces; plus canonical/mirrored schedules for up to 16 threads under ASan+UBSan"}
     return ck.finish(cov, ["hook H1 turns the decoder's volatile-flag busy waits and progress stores into scheduling points; the flag handshakes are assumed to have "
                            "acquire/release semantics (true on x86)", "data races are not decided here (TSan with handshake annotations is not run in this tier)",
                            "streams are produced by the SVT encoder (<= 256x256, <= 9 frames)"])
@@ -155,7 +169,7 @@ def replay(path):
     exe = schedlib.build_decdrv("asan" if d.get("asan") else "rel")
     devs = [tuple(int(x) for x in t.split(":")) for t in d["delays"].split(",") if t]
     a = schedlib.run_schedule(schedlib.build_decdrv("rel"), [pre, "threads=1"], [])
-    b = schedlib.run_schedule(exe, [pre, "threads=%d" % d["threads"]], devs, policy=d.get("policy", 0),
+    b = schedlib.run_schedule(exe, [pre, "threads=%d" % d["threads"]], devs, policy=d.get("policy", 0), stalls=d.get("stalls") or (),
                               env={"ASAN_OPTIONS": "detect_leaks=0:halt_on_error=0:exitcode=0", "UBSAN_OPTIONS": "print_stacktrace=1:halt_on_error=0"})
     print("single thread:", obs(a)); print("schedule:", obs(b), "status", b["rc"], b["stderr"][-600:])
     return 0 if (b["rc"] == 0 and obs(a) == obs(b) and not enc.sanitizer_sites(b["stderr"])) else 1
